@@ -109,9 +109,10 @@ for _pid, _mods in SRC_DIRECT.items():
 
 # raw-array world (harness/pysrc_obs.py -> Generated/SrcObs.lean): layout, getters, vectorize, observe, observations
 SRC_RAW = {
-    "C01": ["SrcRunning"],
+    "C01": ["SrcRunning", "SrcRowVocab"],
+    "C04": ["SrcRowVocab"],
     "C08": ["SrcObserve", "SrcObs", "SrcObsStep"],
-    "C09": ["SrcLayout", "SrcObserve", "SrcObs"],
+    "C09": ["SrcLayout", "SrcObserve", "SrcObs", "SrcRowVocab"],
     "C11": ["SrcAct"],
     "C12": ["SrcAct"],
 }
